@@ -14,6 +14,7 @@
 EXTENDS Pipeline, TLC, Json, IOUtils
 
 CONSTANTS AsBuiltRoot,  \* KF12 (as built): run in the module's root directory, the tool writes nothing
+          AsBuiltDepType, \* KF34 (as built): see ProvisionalDep
           AsBuiltDep    \* KF21 (as built): a source importing a package of the same run that has no generated files yet makes the tool fail
 
 Trace == ndJsonDeserialize(IOEnv.VERIF_TRACE)
@@ -62,9 +63,19 @@ NewBindings(e, g) ==
             \E f \in B, o \in A : IsSrc(f) /\ Under(f, e.dir) /\ Path(o) = Derived(f) /\ p = <<f.sha, o.sha>>
                                   /\ Lookup(g, f.sha) = {}}     \* the FIRST observation binds
 
+\* KF34 (as built): the optimiser type-checks the staged files against what is on disk; while a package of the
+\* same run has no generated file yet its declarations are unknown there, and optimisations that need type
+\* information (eta reduction of a closure whose type mentions such a declaration) are skipped -- in the first
+\* run only.  Identified by the layout: the source `dep` observed while p/sub/c.go does not exist yet; such an
+\* observation is provisional, it does not bind gen.  Everything else of GoGenOK still applies to that run,
+\* and every later run must reproduce the bytes of the first non-provisional one.
+ProvisionalDep(e, p) ==
+  /\ AsBuiltDepType
+  /\ \E f \in ToSet(e.before) : IsSrc(f) /\ f.base = "dep" /\ f.sha = p[1]
+  /\ ~\E f \in ToSet(e.before) : f.dir = <<"p", "sub">> /\ f.base = "c" /\ f.suffix = ".go"
 Gen == /\ l <= Len(Trace) /\ Trace[l].op = "gen"
        /\ (GoGenOK(Trace[l], gen) \/ RootAsBuilt(Trace[l]) \/ DepAsBuilt(Trace[l]))
-       /\ gen' = IF Trace[l].rc = 0 THEN gen \cup NewBindings(Trace[l], gen) ELSE gen
+       /\ gen' = IF Trace[l].rc = 0 THEN gen \cup {p \in NewBindings(Trace[l], gen) : ~ProvisionalDep(Trace[l], p)} ELSE gen
        /\ l' = l + 1
 Other == /\ l <= Len(Trace) /\ Trace[l].op \in {"reset", "other"} /\ l' = l + 1 /\ UNCHANGED gen
 Next == Gen \/ Other
